@@ -18,6 +18,7 @@ repair is a separate small patch to /repo, and each place is marked `REPAIRED #n
   #32 layout.go Apply           GSUB type 8 lookups were applied front to back
   C06-ch3skip nested.go ChainedSeqContext3.apply skip loops stopped one glyph early
   C06-attach gpos4.go, gpos6.go the mark offsets ignored the offsets of the glyph attached to
+  C06-base gpos4.go, gpos6.go   the search for the base glyph / mark2 went past uncovered glyphs
 
 Every Go index expression that is not dominated by a guard is an `idx`/`idxI` here and
 yields `panic site`; running out of the explicit fuel yields `err "fuel"` (proved impossible
@@ -240,27 +241,22 @@ def applyPair (st : St) (a p : Nat) (g1 g2 : Glyph) (adj : PairAdj) : Outcome (O
     let g2' ← applyValue (some v) g2
     .ok (some ({ st with seq := (st.seq.set a g1').set p g2' }, p + 1))
 
-/-- the `for p >= 0` loop of `Gpos4_1.apply` / `Gpos6_1.apply` over `seq[a-1], seq[a-2], …`:
-coverage index of the first covered glyph and the sum of the advances from there up to `a-1` -/
-def findBase (cov : Cov) : List Glyph → Int → Option (Nat × Int)
+/-- the backward search of `Gpos4_1.apply` / `Gpos6_1.apply` over `seq[a-1], seq[a-2], …`: glyphs for
+which `skip` holds are passed over (4.1: marks, 6.1: glyphs the lookup flags skip); the result is
+the first other glyph and the sum of the advances from there up to `a-1`.
+REPAIRED C06-base: the search stops at that glyph (was: it went on to the nearest glyph COVERED by
+the base coverage, attaching across uncovered base glyphs). -/
+def findCand (skip : Nat → Bool) : List Glyph → Int → Option (Glyph × Int)
   | [], _ => none
-  | g :: rest, acc =>
-    match covGet cov g.gid with
-    | some i => some (i, acc + g.adv)
-    | none => findBase cov rest (acc + g.adv)
+  | g :: rest, acc => if skip g.gid then findCand skip rest (acc + g.adv) else some (g, acc + g.adv)
 
-/-- offsets of the first covered glyph of `seq[a-1], seq[a-2], …` (the glyph `findBase` stops at) -/
-def baseOffsets (cov : Cov) : List Glyph → Int × Int
-  | [] => (0, 0)
-  | g :: rest => if covHas cov g.gid then (g.xoff, g.yoff) else baseOffsets cov rest
-
-/-- `Gpos4_1.apply` (`add = true`) and `Gpos6_1.apply` (`add = false`).
+/-- `Gpos4_1.apply` and `Gpos6_1.apply`.
 REPAIRED #15: a mark class outside the anchor row does not apply (was: index panic on tables
 the reader delivers).
 REPAIRED C06-attach: both set `XOffset = seq[p].XOffset + dx`, `YOffset = seq[p].YOffset + dy`,
 the attachment points coincide (was: 4.1 `XOffset += dx`, 6.1 `XOffset = dx`, neither looked
-at the offsets of the glyph attached to).  The flag `add` no longer matters. -/
-def applyMark (_add : Bool) (st : St) (a : Nat) (markCov baseCov : Cov) (marks : List MarkRec)
+at the offsets of the glyph attached to). -/
+def applyMark (skip : Nat → Bool) (st : St) (a : Nat) (markCov baseCov : Cov) (marks : List MarkRec)
     (bases : List (List Anchor)) : Outcome (Option (St × Nat)) := do
   let g ← idx "gpos4/6:seq[a]" st.seq a
   match covGet markCov g.gid with
@@ -268,20 +264,22 @@ def applyMark (_add : Bool) (st : St) (a : Nat) (markCov baseCov : Cov) (marks :
   | some mi =>
     let mr ← idx "gpos4/6:MarkArray[markIdx]" marks mi
     if a == 0 then .ok none else
-    match findBase baseCov (st.seq.take a).reverse 0 with
+    match findCand skip (st.seq.take a).reverse 0 with
     | none => .ok none
-    | some (bi, advs) =>
-      let row ← idx "gpos4/6:BaseArray[baseIdx]" bases bi
-      match row[mr.cls]? with
+    | some (bg, advs) =>
+      match covGet baseCov bg.gid with
       | none => .ok none
-      | some br =>
-        if br.x == 0 && br.y == 0 then .ok none else
-        let dx : Int := br.x - mr.x - advs
-        let dy : Int := br.y - mr.y
-        let bo := baseOffsets baseCov (st.seq.take a).reverse
-        let xo := wrap16 (bo.1 + dx)
-        let yo := wrap16 (bo.2 + dy)
-        .ok (some ({ st with seq := st.seq.set a { g with xoff := xo, yoff := yo } }, a + 1))
+      | some bi =>
+        let row ← idx "gpos4/6:BaseArray[baseIdx]" bases bi
+        match row[mr.cls]? with
+        | none => .ok none
+        | some br =>
+          if br.x == 0 && br.y == 0 then .ok none else
+          let dx : Int := br.x - mr.x - advs
+          let dy : Int := br.y - mr.y
+          let xo := wrap16 (bg.xoff + dx)
+          let yo := wrap16 (bg.yoff + dy)
+          .ok (some ({ st with seq := st.seq.set a { g with xoff := xo, yoff := yo } }, a + 1))
 
 /-! ## subtable.apply(ctx, a, b) -/
 
@@ -459,8 +457,9 @@ def applySub (kp : Nat → Bool) (st : St) (a : Nat) (b : Int) :
             pure (wrap16 (g.xoff + r.exit.x - nx.xoff - nr.entry.x))
         else pure g.adv)
       .ok (some ({ st with seq := st.seq.set a { g with yoff := yo, adv := ad } }, a + 1))
-  | .gpos41 markCov baseCov marks bases => applyMark true st a markCov baseCov marks bases
-  | .gpos61 mark1Cov mark2Cov marks1 marks2 => applyMark false st a mark1Cov mark2Cov marks1 marks2
+  | .gpos41 markCov baseCov marks bases gclass =>
+    applyMark (fun x => classOf gclass x == Gen.shapeClassMark) st a markCov baseCov marks bases
+  | .gpos61 mark1Cov mark2Cov marks1 marks2 => applyMark (fun x => !kp x) st a mark1Cov mark2Cov marks1 marks2
 
 /-- `Context.applyAt`: the first subtable that applies -/
 def applyAt (kp : Nat → Bool) (st : St) (a : Nat) (b : Int) :
